@@ -1,2 +1,44 @@
-(* C01 — placeholder for the build (theorems are added below as they are proved). *)
-From Zorg Require Import Base.PyStr Base.Res Base.Dates Model.FileListener.
+(* C01 — Compiling a page yields exactly the notes written in it.
+   PARTIAL: the end-to-end statement (compile (render p) = expected_notes p for
+   every abstract page p) is decided by the correspondence + spec runs of the
+   harness; proved here are the mechanisms that make it true, over ALL trees. *)
+From Zorg Require Import Base.PyStr Base.Res Base.Dates Model.FileListener Model.Witness Proofs.FileListenerFacts.
+
+(* Only todo_prefix / priority nodes write kind and priority: no other word
+   form, however it looks, changes them. *)
+Theorem C01_kind_priority_only_from_prefix_partial : forall r l kids st st',
+  classify r <> RTodoPrefix -> classify r <> RPriority ->
+  enter r l kids st = Ok st' -> kp st' = kp st.
+Proof. exact enter_keeps_kind_priority. Qed.
+
+(* Identity words: from the third identifier of an item on (or the second, when
+   the first was not a modify date) a ZID- or date-shaped word changes neither
+   ZID, nor modify date, nor create date. *)
+Theorem C01_lookalike_ids_inert_partial : forall txt st st',
+  enter_id txt st = Ok st' ->
+  (2 <= s_ids st \/ (s_ids st = 1 /\ s_modify st = None)) -> ident st' = ident st.
+Proof. exact id_after_identity_is_inert. Qed.
+
+Theorem C01_lookalike_dates_inert_partial : forall kids st st',
+  enter_date kids st = Ok st' ->
+  s_in_hdr st = [false; false; false; false] -> s_first_comment st = false ->
+  (s_ids st <> 1 \/ getn 5 (s_dates st) None <> None) -> ident st' = ident st.
+Proof. exact date_word_in_body_is_inert. Qed.
+
+(* Nothing but the exit of an item adds a note: with the output accumulator
+   threaded outside the listener state, headers, comments and blank lines
+   cannot add notes by construction; and a flagged page indexes nothing. *)
+Theorem C01_valid_not_flagged : forall today t pg,
+  listen today false t = Ok pg -> p_has_errors pg = false.
+Proof. exact no_errors_not_flagged. Qed.
+
+Example C01_example :
+  exists pg n, listen (mkDate 2024 6 1) false w_ok = Ok pg /\ p_notes pg = [n] /\
+    n_todo n = Some (S "P1", S "o") /\ n_zid n = Some (S "231231#0A") /\ n_line n = 3 /\
+    n_modify n = mkDate 2024 1 1 /\ n_create n = mkDate 2023 12 31.
+Proof. eexists. eexists. split; [vm_compute; reflexivity|]. repeat split. Qed.
+
+Print Assumptions C01_kind_priority_only_from_prefix_partial.
+Print Assumptions C01_lookalike_ids_inert_partial.
+Print Assumptions C01_lookalike_dates_inert_partial.
+Print Assumptions C01_valid_not_flagged.
